@@ -592,6 +592,9 @@ impl<'ast, 'res> Resolver<'ast, 'res> {
         let prev_function = self.current_function;
         self.current_owner = function_id;
         self.current_function = Some(function_id);
+        // A loop around the definition does not enclose the body: `comot`/`next` there
+        // would have no loop to leave when the function is called.
+        let prev_in_loop = std::mem::replace(&mut self.in_loop, 0);
 
         let param_scope =
             self.facts.push_scope(Some(self.current_scope()), self.current_owner, body.span);
@@ -628,6 +631,7 @@ impl<'ast, 'res> Resolver<'ast, 'res> {
         // Restore previous function context
         self.current_owner = prev_owner;
         self.current_function = prev_function;
+        self.in_loop = prev_in_loop;
     }
 
     fn check_return_stmt(&mut self, expr: Option<ExprRef<'ast>>, span: &'ast Span) {
